@@ -119,3 +119,172 @@ Theorem C06_null_bind_current : forall numeq tr strict pn items datas cols L,
           combine items' (data_for_curves (List.length items') cols')).
 Proof. exact bind_pin. Qed.
 Print Assumptions C06_null_bind_current.
+
+(* ==== BEGIN block "read level" (audit D1) =======================================================
+   The theorems above are the branches of null_column for an arbitrary oracle (C06_iff,
+   C06_index_kept, C06_text_untouched, C06_none_policy are UNFOLDING LEMMAS of null_column /
+   null_columns; C06_iff_cellwise, C06_columnwise, C06_length are their list-level consequences).
+   The theorems of this block are about Read.read (Proofs/ReadDataShape.v):
+     C06_read_null      whenever read succeeds (data not ignored): the data array is
+                        data_for_curves (number of curves) (null_columns (Read.nulleq numeq NULL)
+                        strict 0 cols), cols = what the engine returned for the LAST data section
+                        (engine_out: numpy engine when selected and it does not raise, else the
+                        normal engine), NULL = p_null of the state the first pass ended with; and
+                        that NULL is None (no NULL read) or the value of an item found under NULL
+                        in a ~W-lettered header section of this text (null_source) -- nothing
+                        else can set it;
+     C06_read_cell_iff  hence, cell by cell: cell (i,j) of the result is NaN iff the engine's cell
+                        (i,j) is NaN already (a "nan" token) or j is not the index column, the
+                        policy is strict, column j is numeric and the cell is a number t with
+                        Read.nulleq numeq NULL t = true; every other cell is the engine's cell;
+     C06_nulleq_numeric Read.nulleq numeq NULL t = true only when NULL is an int z or a float
+                        literal x and the oracle says float(t) == float(str(z)) / float(x): the
+                        comparison is numeric equality of the two doubles, whatever the spellings;
+     C06_null_not_numeric  a NULL that is absent, a text (NULL. N/A) or None makes Read.nulleq
+                        constantly false and null_columns the identity: no cell is nulled
+                        (C06_read_null_not_numeric: the same for the array read returns).
+   Columns j >= length cols (declared curves without a data column) are NaN-filled by
+   data_for_curves (C07_data_columns); they hold no sample of the file.
+   Still not proved here: the write side (NaN -> str(NULL)); null policies other than strict/none. *)
+Require Import Num SectionParse Sections Read ReadCongr ReadDataShape.
+
+Theorem C06_read_null : forall fhex fstr numeq o text l,
+  read fhex fstr numeq o text = ROk l -> o_ignore_data o = false ->
+  exists ps d,
+    first_pass o (lines_keep text) ps_init (find_sections (lines_keep text)) = inl ps /\
+    dlm_of (p_dlm ps) = Some d /\
+    (p_null ps = None \/
+     exists v, p_null ps = Some v /\ null_source o (lines_keep text) (find_sections (lines_keep text)) v) /\
+    (data_sections_of text = [] -> l_data l = []) /\
+    (forall pre p, data_sections_of text = pre ++ [p] ->
+     exists l0 cols r,
+       read_data_sections fhex fstr numeq o (lines_keep text) ps d pre (p_las ps) = inl l0 /\
+       engine_out fhex fstr o (p_wrapped ps) d (body_lines (lines_keep text) p)
+                  (List.length (s_items (l_curves l0))) (wrap_decl l0) = DOk cols /\
+       Forall (fun c => List.length c = r) cols /\
+       (List.length cols <= List.length (s_items (l_curves l)))%nat /\
+       l_data l = data_for_curves (List.length (s_items (l_curves l)))
+                    (null_columns (nulleq numeq (p_null ps)) (o_null_strict o) 0%nat cols)).
+Proof. exact read_data_null. Qed.
+
+Theorem C06_read_cell_iff : forall fhex fstr numeq o text l,
+  read fhex fstr numeq o text = ROk l -> o_ignore_data o = false ->
+  forall pre p, data_sections_of text = pre ++ [p] ->
+  exists ps d l0 cols,
+    first_pass o (lines_keep text) ps_init (find_sections (lines_keep text)) = inl ps /\
+    dlm_of (p_dlm ps) = Some d /\
+    read_data_sections fhex fstr numeq o (lines_keep text) ps d pre (p_las ps) = inl l0 /\
+    engine_out fhex fstr o (p_wrapped ps) d (body_lines (lines_keep text) p)
+               (List.length (s_items (l_curves l0))) (wrap_decl l0) = DOk cols /\
+    forall j colj i c, nth_error cols j = Some colj -> nth_error colj i = Some c ->
+    exists c',
+      nth_error (nth j (l_data l) []) i = Some c' /\
+      (c' = CNaN <->
+         c = CNaN \/
+         (j <> 0%nat /\ o_null_strict o = true /\ is_float_col colj = true /\
+          exists t, c = CNum t /\ nulleq numeq (p_null ps) t = true)) /\
+      (c' <> CNaN -> c' = c).
+Proof. exact read_cell_nan_iff. Qed.
+
+Theorem C06_nulleq_numeric : forall numeq pn t, nulleq numeq pn t = true ->
+  (exists z, pn = Some (VInt z) /\ numeq t (z_to_str z) = true) \/
+  (exists x, pn = Some (VFloat x) /\ numeq t x = true).
+Proof. exact nulleq_numeric. Qed.
+
+(* null_not_numeric pn: pn is None, Some (VStr _) or Some VNone *)
+Theorem C06_null_not_numeric : forall numeq pn,
+  match pn with Some (VInt _) | Some (VFloat _) => False | _ => True end ->
+  (forall t, nulleq numeq pn t = false) /\
+  (forall strict cols k, null_columns (nulleq numeq pn) strict k cols = cols).
+Proof.
+  intros numeq pn H. split; [exact (nulleq_not_numeric numeq pn H)|].
+  intros strict cols k. apply null_columns_never. exact (nulleq_not_numeric numeq pn H).
+Qed.
+
+Theorem C06_read_null_not_numeric : forall fhex fstr numeq o text l,
+  read fhex fstr numeq o text = ROk l -> o_ignore_data o = false ->
+  forall pre p, data_sections_of text = pre ++ [p] ->
+  exists ps d l0 cols,
+    first_pass o (lines_keep text) ps_init (find_sections (lines_keep text)) = inl ps /\
+    dlm_of (p_dlm ps) = Some d /\
+    read_data_sections fhex fstr numeq o (lines_keep text) ps d pre (p_las ps) = inl l0 /\
+    engine_out fhex fstr o (p_wrapped ps) d (body_lines (lines_keep text) p)
+               (List.length (s_items (l_curves l0))) (wrap_decl l0) = DOk cols /\
+    (match p_null ps with Some (VInt _) | Some (VFloat _) => False | _ => True end ->
+     l_data l = data_for_curves (List.length (s_items (l_curves l))) cols).
+Proof. exact read_null_not_numeric. Qed.
+
+(* non-vacuity: concrete files.  ~W holds NULL -999.25; the data section spells it in three
+   ways, in the index column too, next to a near-NULL value, a "nan" token and a text column.
+   rd_fhex: float() succeeds on decimal literals and "nan"; rd_numeq: exact decimal equality. *)
+From Coq Require Import ZArith.
+Require Import NumLit.
+Definition rd_fhex (t : list N) : option (list N) :=
+  match py_float_dec t with
+  | Some _ => Some t
+  | None => if str_eqb t (s2l "nan") then Some (s2l "nan") else None
+  end.
+Definition rd_numeq (a b : list N) : bool :=
+  match py_float_dec a, py_float_dec b with
+  | Some x, Some y =>
+      let mx := (if d_neg x then - dec_mant x else dec_mant x)%Z in
+      let my := (if d_neg y then - dec_mant y else dec_mant y)%Z in
+      let lo := Z.min (dec_e10 x) (dec_e10 y) in
+      (mx * 10 ^ (dec_e10 x - lo) =? my * 10 ^ (dec_e10 y - lo))%Z
+  | _, _ => false
+  end.
+Definition rd_text (well : list string) (data : list string) : list N :=
+  flat_map (fun l => s2l l ++ [10%N])
+    (["~V"; "VERS. 2.0 : v"; "WRAP. NO : w"; "~W"] ++ well ++
+     ["~C"; "DEPT.M : d"; "A. : a"; "B. : b"; "T. : t"; "~A"] ++ data).
+Definition rd_o (numpy : bool) : ropts := mkropts false CasePreserve numpy true false.
+Definition rd_data (r : rres) : option (list (list cell)) :=
+  match r with ROk l => Some (l_data l) | RErr _ => None end.
+Definition rd_rows : list string := ["-999.25 -999.2500 -9.9925E2 x"; "2 -999.2500001 nan y"].
+Definition rd_rows_num : list string := ["-999.25 -999.2500 -9.9925E2 7"; "2 -999.2500001 nan -999.25"].
+
+(* both engines (the text column makes the numpy engine fall back): index kept, the three
+   spellings nulled, the near-NULL value kept, the text column untouched *)
+Example C06_ex_read : forall np,
+  rd_data (read rd_fhex (fun t => t) rd_numeq (rd_o np) (rd_text ["NULL. -999.25 : n"] rd_rows))
+  = Some [ [CNum (s2l "-999.25"); CNum (s2l "2")]; [CNaN; CNum (s2l "-999.2500001")]; [CNaN; CNaN];
+           [CStr (s2l "x"); CStr (s2l "y")] ].
+Proof. intros [|]; vm_compute; reflexivity. Qed.
+(* all-numeric body: the numpy engine itself (np = true) and the normal engine agree *)
+Example C06_ex_read_numeric : forall np,
+  rd_data (read rd_fhex (fun t => t) rd_numeq (rd_o np) (rd_text ["NULL. -999.25 : n"] rd_rows_num))
+  = Some [ [CNum (s2l "-999.25"); CNum (s2l "2")]; [CNaN; CNum (s2l "-999.2500001")]; [CNaN; CNaN];
+           [CNum (s2l "7"); CNaN] ].
+Proof. intros [|]; vm_compute; reflexivity. Qed.
+(* no NULL item in ~W, and a NULL that is a text: nothing is nulled *)
+Example C06_ex_read_no_null : forall np,
+  rd_data (read rd_fhex (fun t => t) rd_numeq (rd_o np) (rd_text [] rd_rows_num))
+  = Some [ [CNum (s2l "-999.25"); CNum (s2l "2")]; [CNum (s2l "-999.2500"); CNum (s2l "-999.2500001")];
+           [CNum (s2l "-9.9925E2"); CNaN]; [CNum (s2l "7"); CNum (s2l "-999.25")] ].
+Proof. intros [|]; vm_compute; reflexivity. Qed.
+Example C06_ex_read_text_null : forall np,
+  rd_data (read rd_fhex (fun t => t) rd_numeq (rd_o np) (rd_text ["NULL. N/A : n"] rd_rows_num))
+  = rd_data (read rd_fhex (fun t => t) rd_numeq (rd_o np) (rd_text [] rd_rows_num)).
+Proof. intros [|]; vm_compute; reflexivity. Qed.
+(* the hypotheses of C06_read_null / C06_read_cell_iff are met by the first file: read succeeds,
+   data is not ignored, there is exactly one data section, and the NULL held is the float -999.25 *)
+Example C06_ex_read_hyps : forall np,
+  (exists l, read rd_fhex (fun t => t) rd_numeq (rd_o np) (rd_text ["NULL. -999.25 : n"] rd_rows) = ROk l) /\
+  o_ignore_data (rd_o np) = false /\
+  (exists p, data_sections_of (rd_text ["NULL. -999.25 : n"] rd_rows) = [] ++ [p]) /\
+  (exists ps, first_pass (rd_o np) (lines_keep (rd_text ["NULL. -999.25 : n"] rd_rows)) ps_init
+                (find_sections (lines_keep (rd_text ["NULL. -999.25 : n"] rd_rows))) = inl ps /\
+              p_null ps = Some (VFloat (s2l "-999.25"))).
+Proof.
+  intros np. split; [|split; [reflexivity|split]].
+  - destruct np; eexists; vm_compute; reflexivity.
+  - eexists. vm_compute. reflexivity.
+  - destruct np; eexists; split; vm_compute; reflexivity.
+Qed.
+
+Print Assumptions C06_read_null.
+Print Assumptions C06_read_cell_iff.
+Print Assumptions C06_nulleq_numeric.
+Print Assumptions C06_null_not_numeric.
+Print Assumptions C06_read_null_not_numeric.
+(* ==== END block "read level" (audit D1) ========================================================= *)
